@@ -87,7 +87,7 @@ def lattice : Handler := fun j => do
     | .ok l => do
       let cs0 ← getLat (← l.getObjVal? "cs0")
       let ch0 ← getDict (← l.getObjVal? "children0")
-      match LC.initFromChildren ch0 cs0.length id 2000000 with
+      match LC.initFromChildren ch0 cs0.length id (LC.closedFuel cs0.length) with
       | .error e => pure (jErr e)
       | .ok c0 =>
         match LC.reindex cs0 c0 with
@@ -100,7 +100,7 @@ def lattice : Handler := fun j => do
             ("parents", jDictRange c.parents k), ("ancestors", jDictRange c.ancestors k),
             ("top", jOptNat c.top), ("bottom", jOptNat c.bottom)])
   pure (Json.mkObj [
-    ("hyp", Json.bool (Spec.isConceptList t cs)),
+    ("hyp", Json.bool (Spec.isConceptList t cs)), ("hypSub", Json.bool (Spec.isConceptSub t cs)),
     ("desc", jSets mDesc), ("anc", jSets mAnc), ("children", jSets mChildren), ("parents", jSets mParents),
     ("orderIndep", Json.bool (mChildren.map sortNats == mChildrenR.map sortNats
                               && mParents.map sortNats == mParentsR.map sortNats)),
